@@ -842,6 +842,8 @@ class SetDom:
         if isinstance(e, ast.BinOp) and isinstance(e.op, ast.BitOr):
             a, b = self.of(e.left), self.of(e.right)
             return None if a is None or b is None else a | b
+        if isinstance(e, ast.BinOp) and isinstance(e.op, ast.Sub):
+            return self.of(e.left)          # kinds of objects: a difference holds no other kind than its left operand
         if isinstance(e, ast.SetComp) and len(e.generators) == 2 and isinstance(e.elt, ast.Name) and \
                 isinstance(e.generators[1].target, ast.Name) and e.generators[1].target.id == e.elt.id and \
                 not e.generators[0].ifs and not e.generators[1].ifs and isinstance(e.generators[0].target, ast.Name):
@@ -1170,6 +1172,37 @@ def rule_sites(repo):
                       f"slice / struct-field signals used only inside update blocks, so they are missing from "
                       f"{', '.join(a for a in sorted(adds) if set(_classes(frozenset().union(*[x for x, _ in adds[a] if x]))) & set(late))} "
                       f"after the replacement ({ref[0]}.elaborate collects named objects after this step)", c.lineno)
+    # eval() of a saved name (`s.c.in_[0:4]`, a struct field) creates the slice / field object of the NEW component on demand:
+    # the signals of the new component must be (re-)collected into all_signals / all_named_objects after the last eval
+    evs = [n for n in walk_no_nested(addf) if isinstance(n, ast.Call) and norm(n.func) == 'eval']
+    if evs and erw_ok:
+        last_ev = max(top_idx(n) for n in evs)
+        for agg in ('all_signals', 'all_named_objects'):
+            late = [st for sv, st in adds.get(agg, []) if sv and ('coll', new_obj, 'Signal') in sv and top_idx(st) > last_ev]
+            # ... and the collected set itself must have been computed after the last eval
+            fresh_late = []
+            for st in late:
+                val = st.value if isinstance(st, ast.AugAssign) else st.value.args[0]
+                names = [n.id for n in ast.walk(val) if isinstance(n, ast.Name)]
+                calls_after = [c for c in ast.walk(val) if isinstance(c, ast.Call)]
+                ok_b = bool(calls_after)
+                for nm_ in names:
+                    for k, bst, v, _ in _bindings(addf, nm_):
+                        if k in ('assign', 'unpack') and any(isinstance(c, ast.Call) and isinstance(c.func, ast.Attribute) and
+                                                             c.func.attr.startswith('_collect_all') for c in ast.walk(v)) \
+                                and top_idx(bst) > last_ev:
+                            ok_b = True
+                if ok_b:
+                    fresh_late.append(st)
+            cons = f"{agg}: signals of {new_obj} spawned by eval() of the saved names are collected"
+            if fresh_late:
+                r.ok(m, ADD_QUAL, cons)
+            else:
+                r.bad(m, ADD_QUAL, f"{agg}: signals of {new_obj} are collected before eval() of the saved names",
+                      f"_add_component evaluates the saved names ({len(evs)} eval calls) after the last collection of {new_obj}'s "
+                      f"signals; a saved name such as `s.c.in_[0:4]` creates the slice / struct-field signal of the replacement on "
+                      f"demand, which therefore never reaches {agg}: net resolution starts from all_signals, so a constant or "
+                      f"connection on such a sub-signal is lost (the port reads 0) unlike in a fresh build", evs[0].lineno)
     # attribute / field registry of the parent (non-list branch)
     rm = [n for n in walk_no_nested(delf) if isinstance(n, ast.Call) and isinstance(n.func, ast.Attribute)
           and n.func.attr in ('remove', 'discard') and _dsl_attr(n.func.value)
@@ -1266,8 +1299,14 @@ def rule_sites(repo):
             break
         verdict = True
         if keeps_mp:
-            r.observations.append("connect_order keeps pairs of removed method ports (acknowledged TODO in the source); "
-                                  "only signal pairs are required here")
+            mp_writer = [f"{fc.name}.{f.name}" for fm, fc, f in _level_functions(repo) if 'method_port' in f.name and any(
+                isinstance(n, ast.Call) and isinstance(n.func, ast.Attribute) and n.func.attr == 'append'
+                and (_dsl_attr(n.func.value) or ('', ''))[1] == 'connect_order' for n in ast.walk(f))]
+            if mp_writer:
+                r.bad(m, DEL_QUAL, "connect_order keeps pairs of removed method ports",
+                      f"{mp_writer[0]} records method-port connections in connect_order, but the rebuilt list only drops pairs "
+                      f"with a removed *signal* end: after replacing a component whose method port is connected at the parent, "
+                      f"get_connect_order() lists the pair with the <deleted> port next to the replayed one", s2.lineno)
     if verdict:
         r.ok(m, DEL_QUAL, "parent connect_order rebuilt without pairs whose either end is a removed signal")
     else:
@@ -1323,6 +1362,35 @@ def _flatten_and(test, polarity):
             todo.append((t.operand, not pol))
         else:
             out.append((t, pol))
+    return out
+
+
+def _selected_sets(conds, xvar):
+    """set expressions S with a known-true `xvar in S`; a disjunction `xvar in A or xvar in B` yields the BinOp A | B"""
+    out = []
+    for c in conds:
+        for t, pol in _flatten_and(*c):
+            def pos(u, pl):
+                return isinstance(u, ast.Compare) and len(u.ops) == 1 and norm(u.left) == xvar and \
+                    ((isinstance(u.ops[0], ast.In) and pl) or (isinstance(u.ops[0], ast.NotIn) and not pl))
+            if pos(t, pol):
+                out.append(t.comparators[0])
+            elif isinstance(t, ast.BoolOp) and ((isinstance(t.op, ast.Or) and pol) or (isinstance(t.op, ast.And) and not pol)):
+                parts = []
+                for v in t.values:
+                    vv, vp = v, pol
+                    while isinstance(vv, ast.UnaryOp) and isinstance(vv.op, ast.Not):
+                        vv, vp = vv.operand, not vp
+                    if pos(vv, vp):
+                        parts.append(vv.comparators[0])
+                    else:
+                        parts = None
+                        break
+                if parts:
+                    u = parts[0]
+                    for q in parts[1:]:
+                        u = ast.BinOp(left=u, op=ast.BitOr(), right=q)
+                    out.append(u)
     return out
 
 
@@ -1454,6 +1522,27 @@ def rule_keys(repo):
                     raise AnalysisError(f"R-C15-keys: back-edge removal `{norm(st)}` is conditional on "
                                         f"{[norm(t) for t, _ in other]}; outside the domain")
                 r.ok(m, DEL_QUAL, f"{norm(st)} for every neighbour of a removed key of {g}")
+                if not g.endswith('.all_adjacency'):
+                    # host-level graph: its edges were made AT the surviving host; an edge to a neighbour that is removed too
+                    # (excluded above) vanishes with `del` unless it is saved for replay
+                    ret_names = {x.id for n2 in walk_no_nested(fn) if isinstance(n2, ast.Return) and isinstance(n2.value, ast.Tuple)
+                                 for x in n2.value.elts if isinstance(x, ast.Name)}
+                    saved_lb = False
+                    for a2 in walk_no_nested(inner):
+                        if isinstance(a2, ast.Call) and isinstance(a2.func, ast.Attribute) and a2.func.attr == 'append' \
+                                and norm(a2.func.value) in ret_names:
+                            c2 = [(g2.test, g2.polarity) for g2 in guards_of(stmt_of(a2), stop=inner) if g2.kind in ('if', 'exit')]
+                            if any(dom.of(S2) is not None and R is not None and R <= dom.of(S2) for S2 in _selected_sets(c2, o)):
+                                saved_lb = True
+                    cons5 = f"{g.split('.')[-1]} (host level): connections between two removed objects are saved for replay"
+                    if saved_lb:
+                        r.ok(m, DEL_QUAL, cons5)
+                    elif ex:
+                        r.bad(m, DEL_QUAL, f"{g.split('.')[-1]} (host level): connections between two removed objects are dropped",
+                              f"{g} holds the connections made at the surviving host; a neighbour that is itself removed is skipped "
+                              f"(`{o} not in {norm(ex[0])}`) and the entry is deleted, but nothing saves the pair: a loop-back "
+                              f"connection between two ports of the same child made at the parent (s.c.a //= s.c.b) is lost on "
+                              f"replacement (NoWriterError / different nets than a fresh build)", st.lineno)
                 # a surviving neighbour that is saved *by value* (o = o._dsl.<attr>) is re-created as a new object by
                 # the re-add path, so the old object must leave the graph
                 for rb in walk_no_nested(inner):
@@ -1720,6 +1809,9 @@ def rule_saved(repo):
         return sv is not None and need_conn <= sv and all(a[0] == 'coll' and a[1] == foo for a in sv)
     # ---- (a)+(b) producer side
     source = {}        # list -> ('map', F) | ('graph', text)
+    selected = {}      # list -> atoms of the set its members are selected by
+    hosts_of = {}      # list -> name of the component whose map is filtered
+    byname = set()     # lists holding pairs whose FIRST element is a name too
     heads = {}         # list -> head identifier needed at eval time
     for L in lists:
         builds = _list_builds(delf, ast.Name(id=L, ctx=ast.Load()))
@@ -1746,7 +1838,6 @@ def rule_saved(repo):
             mp = [g for g in gens if isinstance(g.target, ast.Tuple) and len(g.target.elts) == 2
                   and isinstance(g.iter, ast.Call) and isinstance(g.iter.func, ast.Attribute) and g.iter.func.attr == 'items'
                   and _dsl_attr(_expand(g.iter.func.value, g.node) if isinstance(g.node, ast.stmt) else g.iter.func.value)]
-            atoms = [a for c in conds for a in _flatten_and(*c)]
             if mp:
                 # filtered from a map of the parent
                 mgen = mp[-1]
@@ -1754,24 +1845,26 @@ def rule_saved(repo):
                 kvar, vvar = [norm(x) for x in mgen.target.elts]
                 pb = [norm(v) for k, s2, v, _ in _bindings(delf, base) if k == 'assign']
                 cons = f"{L} <- {base}._dsl.{F}"
-                if pb != [f"{foo}.get_parent_object()"]:
+                via_top = base == _params(delf)[0] and F.startswith('all_')
+                if via_top:
+                    F = F[4:]          # the top-level table aliases the set objects of every host (checked below)
+                elif pb != [f"{foo}.get_parent_object()"]:
                     r.bad(m, DEL_QUAL, cons, f"`{base}` is not the parent of the removed component", line)
                     continue
-                if norm(xgen.iter) not in (vvar, f"{base}._dsl.{F}[{kvar}]") or norm(first) != kvar:
+                Fq = ('all_' + F) if via_top else F
+                if norm(xgen.iter) not in (vvar, f"{base}._dsl.{Fq}[{kvar}]") or norm(first) != kvar:
                     r.bad(m, DEL_QUAL, cons, f"the saved pair ({norm(first)}, name of {xvar}) is not (key, member) of "
                           f"{base}._dsl.{F}: the entry is restored under the wrong block / function", line)
                     continue
-                memb = []
-                for t, pol in atoms:
-                    if isinstance(t, ast.Compare) and len(t.ops) == 1 and norm(t.left) == xvar:
-                        pos = (isinstance(t.ops[0], ast.In) and pol) or (isinstance(t.ops[0], ast.NotIn) and not pol)
-                        if pos and covers_removed(t.comparators[0]):
-                            memb.append(t)
+                memb = [S for S in _selected_sets(conds, xvar) if covers_removed(S)]
+                if memb:
+                    selected[L] = dom.of(memb[0])
                 if not memb:
                     r.bad(m, DEL_QUAL, cons, f"entries are not selected by `{xvar} in <signals and method ports collected "
                           f"from {foo}>`: references to the removed ports are not saved (or foreign ones are)", line)
                     continue
                 source[L] = ('map', F)
+                hosts_of[L] = '<every host>' if via_top else base
                 r.ok(m, DEL_QUAL, f"{cons} filtered by membership in the removed connectables")
                 # (b) purge from the same map, in place
                 purged = False
@@ -1814,17 +1907,14 @@ def rule_saved(repo):
                                      and any(a is lp for a in _ancestors(b2[1], delf))]
                             for n in addx:
                                 xa = norm(n.args[0])
-                                at2 = [a for g2 in guards_of(stmt_of(n), stop=lp) if g2.kind in ('if', 'exit')
-                                       for a in _flatten_and(g2.test, g2.polarity)]
-                                if fresh and any(isinstance(t, ast.Compare) and len(t.ops) == 1 and norm(t.left) == xa and
-                                                 ((isinstance(t.ops[0], ast.In) and pol) or (isinstance(t.ops[0], ast.NotIn) and not pol))
-                                                 and covers_removed(t.comparators[0]) for t, pol in at2):
+                                c2 = [(g2.test, g2.polarity) for g2 in guards_of(stmt_of(n), stop=lp) if g2.kind in ('if', 'exit')]
+                                if fresh and any(covers_removed(S2) for S2 in _selected_sets(c2, xa)):
                                     exact = True
                         if not (exact or covers_removed(val)):
                             continue
-                        if Fp == F and da0[1] == F:
+                        if Fp == Fq and da0[1] == Fq:
                             purged = True
-                        elif da0[1] == F or Fp == F:
+                        elif da0[1] == Fq or Fp == Fq:
                             r.bad(m, DEL_QUAL, norm(s2), f"entries saved from {da0[1]} are purged from {Fp}: {da0[1]} keeps the "
                                   f"deleted objects and {Fp} loses live ones", s2.lineno)
                             purged = None
@@ -1839,6 +1929,23 @@ def rule_saved(repo):
                 nb = [g for g in gens if isinstance(g.iter, ast.Subscript) and norm(g.iter.slice) == xvar and
                       _dsl_attr(_expand(g.iter.value, g.node) if isinstance(g.node, ast.stmt) else g.iter.value)]
                 cons = f"{L} <- neighbours in {norm(nb[-1].iter.value) if nb else '?'}"
+                nbda = _dsl_attr(_expand(nb[-1].iter.value, nb[-1].node) if isinstance(nb[-1].node, ast.stmt)
+                                 else nb[-1].iter.value) if nb else None
+                if nbda and nbda[1] == 'adjacency':
+                    # connection between two removed objects made at the host: both ends saved by name
+                    ovar = norm(nb[-1].target)
+                    h1, x1, why1 = _name_template(first, root)
+                    pbn = [norm(v) for k, s2, v, _ in _bindings(delf, nbda[0]) if k == 'assign']
+                    sel = [S for S in _selected_sets(conds, ovar) if dom.of(S) is not None and dom.of(xgen.iter) is not None
+                           and dom.of(xgen.iter) <= dom.of(S)]
+                    if h1 is None or why1 or x1 != ovar or pbn != [f"{foo}.get_parent_object()"] or not sel:
+                        r.bad(m, DEL_QUAL, cons, f"pairs taken from {nbda[0]}._dsl.adjacency must be (name of the removed neighbour, "
+                              f"name of the removed object) selected by `{ovar} in <removed>` at the parent of `{foo}`", line)
+                        continue
+                    heads.setdefault(L, set()).add(h1)
+                    byname.add(L)
+                    r.ok(m, DEL_QUAL, f"{L} <- connections between two removed objects made at {nbda[0]}, both ends by name")
+                    continue
                 if not nb or _dsl_attr(_expand(nb[-1].iter.value, nb[-1].node) if isinstance(nb[-1].node, ast.stmt)
                                        else nb[-1].iter.value)[1] != 'all_adjacency':
                     r.bad(m, DEL_QUAL, cons, "cross-boundary connections are not taken from the top-level adjacency of the "
@@ -1870,6 +1977,9 @@ def rule_saved(repo):
     # ---- consumer side: parameter -> map
     aps = _params(addf)
     consume = {}
+    cons_loop = {}
+    cons_host = {}
+    first_by_name_ok = False
     for p in aps[5:]:
         loops = [st for st in walk_no_nested(addf) if isinstance(st, ast.For) and norm(st.iter) == p]
         if not loops:
@@ -1878,18 +1988,27 @@ def rule_saved(repo):
         lp = loops[0]
         tv = [norm(x) for x in lp.target.elts] if isinstance(lp.target, ast.Tuple) else []
         evs = [n for n in walk_no_nested(lp) if isinstance(n, ast.Call) and norm(n.func) == 'eval' and len(n.args) == 1]
-        if len(tv) != 2 or not evs or any(norm(e.args[0]) != tv[1] for e in evs):
+        if len(tv) != 2 or not evs or any(norm(e.args[0]) not in tv for e in evs):
             raise AnalysisError(f"{ADD_QUAL}: loop over {p} outside the domain")
         adds = [n for n in walk_no_nested(lp) if isinstance(n, ast.Call) and isinstance(n.func, ast.Attribute)
                 and n.func.attr == 'add' and isinstance(n.func.value, ast.Subscript) and _dsl_attr(n.func.value.value)]
         if adds:
             a = adds[0]
             base, F = _dsl_attr(a.func.value.value)
-            if norm(a.func.value.slice) != tv[0] or not (len(a.args) == 1 and norm(a.args[0]) == f"eval({tv[1]})") \
-                    or base != aps[1]:
+            arg = a.args[0] if len(a.args) == 1 else None
+            if isinstance(arg, ast.Name) and reaching_value(arg.id, a) is not None:
+                arg = reaching_value(arg.id, a)
+            tops = [norm(v) for k, s3, v, _ in _bindings(addf, base) if k == 'assign']
+            via_top = F.startswith('all_') and tops and all(t.endswith('._dsl.elaborate_top') for t in tops)
+            if via_top:
+                F = F[4:]
+            if norm(a.func.value.slice) != tv[0] or arg is None or norm(arg) != f"eval({tv[1]})" or \
+                    (base != aps[1] and not via_top):
                 r.bad(m, ADD_QUAL, norm(a), f"entries of {p} are not re-inserted as {aps[1]}._dsl.<map>[key].add(eval(name))", a.lineno)
                 continue
             consume[p] = ('map', F)
+            cons_loop[p] = lp
+            cons_host[p] = '<every host>' if via_top else base
         else:
             apps = sorted([n for n in walk_no_nested(lp) if isinstance(n, ast.Call) and isinstance(n.func, ast.Attribute)
                            and n.func.attr == 'append' and len(n.args) == 1], key=lambda n: (n.lineno, n.col_offset))
@@ -1897,11 +2016,122 @@ def rule_saved(repo):
             vals = [norm(n.args[0]) for n in apps]
             used = [c for c in _call_sites(addf, 'add_connections')
                     if any(isinstance(x, ast.Starred) and norm(x.value) in tgt for x in c.args)]
-            if len(tgt) == 1 and vals == [tv[0], f"eval({tv[1]})"] and used and norm(used[0].func.value) == aps[1]:
+            evstr = f"eval({tv[0]}) if isinstance({tv[0]}, str) else {tv[0]}"
+            if len(tgt) == 1 and len(vals) == 2 and vals[0] in (tv[0], evstr) and vals[1] == f"eval({tv[1]})" and used \
+                    and norm(used[0].func.value) == aps[1]:
                 consume[p] = ('graph', 'all_adjacency')
+                first_by_name_ok = vals[0] == evstr
             else:
                 r.bad(m, ADD_QUAL, f"for {', '.join(tv)} in {p}", f"saved connections are not replayed pairwise "
                       f"(neighbour, eval(name)) through {aps[1]}.add_connections", lp.lineno)
+    for L in sorted(byname):
+        if first_by_name_ok:
+            r.ok(m, ADD_QUAL, f"{L}: a first element saved by name is evaluated before the connection is replayed")
+        else:
+            r.bad(m, ADD_QUAL, f"{L}: first element saved by name is not evaluated", f"{DEL_QUAL} saves both ends of a loop-back "
+                  f"connection by name but _add_component passes the first element on unevaluated", addf.lineno)
+    # (b) side effects of materialising a write set: flags that elaboration sets on the written signals must be set on restore
+    l2 = None
+    for fm, fc, f in _level_functions(repo):
+        if f.name == '_elaborate_read_write_func':
+            l2 = (fm, fc, f)
+            break
+    if l2 is None:
+        raise AnalysisError("anchor vanished: _elaborate_read_write_func")
+    flags = sorted({_dsl_attr(t)[1] for st in ast.walk(l2[2]) if isinstance(st, ast.Assign) and isinstance(st.value, ast.Constant)
+                    and st.value.value is True for t in st.targets if _dsl_attr(t)})
+    wr_params = [p for p in consume if consume[p] == ('map', 'upblk_writes')]
+    for flag in flags:
+        for p in wr_params:
+            lp = cons_loop[p]
+            sets_flag = [st for st in walk_no_nested(lp) if isinstance(st, ast.Assign) and isinstance(st.value, ast.Constant)
+                         and st.value.value is True and any((_dsl_attr(t) or ('', ''))[1] == flag for t in st.targets)
+                         and any('update_ff' in norm(g.test) and g.polarity for g in guards_of(st, stop=lp) if g.kind == 'if')]
+            cons = f"{flag} restored for signals written by an update_ff block ({p})"
+            if sets_flag:
+                r.ok(m, ADD_QUAL, cons)
+            else:
+                r.bad(m, ADD_QUAL, f"{flag} not restored with the saved update_ff writes",
+                      f"{l2[1].name}._elaborate_read_write_func sets <signal>._dsl.{flag} = True on every signal an update_ff block "
+                      f"writes, but the loop that restores {p} only re-inserts the new signal into the write set: a port of the "
+                      f"replacement that the parent writes with <<= is never flipped (the register keeps its reset value), unlike "
+                      f"in a fresh build", lp.lineno)
+    # (c) the kinds of object a call set may hold (ComponentLevel4._check_upblk_calls) must all be selected by the filter
+    cm4, cc4 = _component(repo)
+    hit = repo.lookup_method(cm4, cc4, '_check_upblk_calls')
+    callable_cls = []
+    if hit is not None:
+        for n in ast.walk(hit[2]):
+            it = _isinstance_test(n) if isinstance(n, ast.Call) else None
+            if it:
+                callable_cls = it[1]
+    if not callable_cls:
+        raise AnalysisError("anchor vanished: the isinstance test of _check_upblk_calls")
+    tab = _subclass_table(repo)
+
+    def ancestors_of(c):
+        out, todo = {c}, [c]
+        while todo:
+            for b in tab.get(todo.pop(), ()):
+                if b not in out:
+                    out.add(b)
+                    todo.append(b)
+        return out
+    for L in lists:
+        if source.get(L, ('', ''))[0] == 'map' and source[L][1].endswith('_calls') and L in selected:
+            have = _classes(selected[L])
+            miss = [c for c in callable_cls if not (ancestors_of(c) & have)]
+            cons = f"{L}: filter selects every kind of callable ({', '.join(callable_cls)})"
+            if miss:
+                r.bad(m, DEL_QUAL, f"{L}: filter does not select {'/'.join(miss)}",
+                      f"a call set may hold {', '.join(callable_cls)} (see {hit[1].name}._check_upblk_calls) but {L} only saves "
+                      f"members of {_fmt_atoms(selected[L], False)}: a CL/FL interface of the removed child that a parent block calls "
+                      f"directly stays in the call set as a stale object and the replacement's interface never enters it", delf.lineno)
+            else:
+                r.ok(m, DEL_QUAL, cons)
+    # (d) any ancestor's block may read a port / call a method of the removed component, not only the parent's
+    upblk_lists = [L for L in hosts_of if source[L][1] in ('upblk_reads', 'upblk_calls')]
+    all_hosts = bool(upblk_lists) and all(hosts_of[L] == '<every host>' for L in upblk_lists)
+    base_names = sorted(set(hosts_of.values()) - {'<every host>'})
+    walks_up = any(isinstance(st, ast.Assign) and isinstance(st.targets[0], ast.Name) and isinstance(st.value, ast.Call)
+                   and isinstance(st.value.func, ast.Attribute) and st.value.func.attr == 'get_parent_object'
+                   and norm(st.value.func.value) == st.targets[0].id and enclosing(st, (ast.While, ast.For)) is not None
+                   for st in walk_no_nested(delf))
+    if hosts_of:
+        cons = "read/write/call tables of every ancestor of the removed component are patched"
+        if walks_up or all_hosts:
+            r.ok(m, DEL_QUAL, cons, note="writes to a port are legal only from its host or the host's parent; "
+                                         "function tables are local to a component")
+        else:
+            r.bad(m, DEL_QUAL, "only the direct parent's read/write/call tables are patched",
+                  f"the saved_* lists are filtered from `{', '.join(base_names)}` = {foo}.get_parent_object() only, but a block of any "
+                  f"ancestor may read a port or call a method of the removed component (reads of In/OutPorts and calls are not "
+                  f"restricted to the direct parent): after replacing a grandchild the grandparent's sets keep the <deleted> "
+                  f"objects, check() raises NotElaboratedError and the metadata differs from a fresh build", delf.lineno)
+    # (f3) constraint tables of the parent can name signals / blocks / methods of the removed component
+    ctabs = set()
+    for fm, fc, f in _defs(repo, 'add_constraints'):
+        me2 = _params(f)[0]
+        for n in ast.walk(f):
+            if isinstance(n, ast.Call) and isinstance(n.func, ast.Attribute) and n.func.attr == 'add':
+                v = n.func.value
+                v = v.value if isinstance(v, ast.Subscript) else v
+                da = _dsl_attr(v)
+                if da and da[0] == me2:
+                    ctabs.add(da[1])
+    if len(ctabs) < 3:
+        raise AnalysisError("anchor vanished: constraint tables written by add_constraints")
+    touched = {n.attr for n in ast.walk(delf) if isinstance(n, ast.Attribute) and isinstance(n.value, ast.Attribute)
+               and n.value.attr == '_dsl' and norm(n.value.value) in base_names + [aps[1]]}
+    missing_tabs = sorted(ctabs - touched)
+    if missing_tabs:
+        r.bad(m, DEL_QUAL, f"parent constraint tables {missing_tabs} are not patched",
+              f"add_constraints stores user-supplied objects in {sorted(ctabs)}; a parent may constrain a signal (RD/WR), an "
+              f"update block (U) or a method (M) of the child. _delete_component neither saves nor removes such entries of the "
+              f"parent: after the replacement they still name the <deleted> objects and the replacement's are unconstrained, so "
+              f"get_all_explicit_constraints() and the schedule differ from a fresh build", delf.lineno)
+    else:
+        r.ok(m, DEL_QUAL, f"parent constraint tables {sorted(ctabs)} are patched")
     # replayed connections repeat pairs that the new child's _construct already made (clk / reset hook-up):
     # _connect_signal_signal must record a pair in connect_order only when it is not yet adjacent
     cm, cc = _component(repo)
@@ -1974,11 +2204,17 @@ def rule_saved(repo):
             r.bad(m, ADD_QUAL, cons, f"no _collect_vars stores the component's {F} entries into {agg}", addf.lineno)
             continue
         copies = [(fm, q, e) for fm, q, e in stores if not (e.val[0] == 'item' and e.val[1] == F and _keyeq(repo, e.key, ('key', e.val[2])))]
-        both = any(isinstance(n, ast.Call) and isinstance(n.func, ast.Attribute) and n.func.attr == 'add' and
-                   isinstance(n.func.value, ast.Subscript) and _top_agg(n.func.value.value, stmt_of(n)) == agg
-                   for n in walk_no_nested(addf)) and \
-            any(isinstance(n, ast.AugAssign) and isinstance(n.op, ast.Sub) and isinstance(n.target, ast.Subscript) and
-                _top_agg(n.target.value, n) == agg for n in walk_no_nested(delf))
+        def touched(fn_, attr, kind):
+            for n in walk_no_nested(fn_):
+                if kind == 'add' and isinstance(n, ast.Call) and isinstance(n.func, ast.Attribute) and n.func.attr == 'add' and \
+                        isinstance(n.func.value, ast.Subscript) and (_dsl_attr(_expand(n.func.value.value, stmt_of(n))) or ('', ''))[1] == attr:
+                    return True
+                if kind == 'sub' and isinstance(n, ast.AugAssign) and isinstance(n.op, ast.Sub) and isinstance(n.target, ast.Subscript) \
+                        and (_dsl_attr(_expand(n.target.value, n)) or ('', ''))[1] == attr:
+                    return True
+            return False
+        # without aliasing, the host's own table AND the top-level table must both be patched explicitly on both sides
+        both = all(touched(addf, a_, 'add') and touched(delf, a_, 'sub') for a_ in (agg, F))
         if copies and not both:
             fm, q, e = copies[0]
             r.bad(fm, q, f"{agg}[blk] holds a copy, not the component's own {F} set",
@@ -2048,6 +2284,11 @@ def rule_saved(repo):
                 r.bad(m, qual, cons, f"{L} is not passed to _add_component", ac[0].lineno)
             elif p not in consume:
                 r.bad(m, qual, cons, f"{L} is passed as {p}, which _add_component does not consume", ac[0].lineno)
+            elif consume[p] == source[L] and source[L][0] == 'map' and \
+                    (hosts_of.get(L) == '<every host>') != (cons_host.get(p) == '<every host>'):
+                r.bad(m, qual, cons + " (different hosts)", f"{L} is filtered from {hosts_of.get(L)}'s table but restored into "
+                      f"{cons_host.get(p)}'s: an entry that belongs to a block of another ancestor raises KeyError / is restored into "
+                      f"the wrong component", ac[0].lineno)
             elif consume[p] != source[L]:
                 r.bad(m, qual, cons + f" -> {consume[p][1]}", f"entries saved from {source[L][1]} are restored into "
                       f"{consume[p][1]}: after the replacement the parent's blocks have the wrong read/write/call sets "
@@ -2643,7 +2884,15 @@ def rule_flush(repo):
     return r
 
 
-RULES = [rule_inverse, rule_sites, rule_keys, rule_saved, rule_names, rule_flush]
+def rule_func_meta_cache(repo):
+    """a replacement of the same class built with other parameters re-collects its blocks' read/write sets: the per-class
+    cache of block metadata must not hand the removed instance's parse (lambda-connection blocks are instance specific) to
+    the new one.  Shared with C02 (R-C02-cache-scope)."""
+    from rules.c02 import rule_cache_scope
+    return rule_cache_scope(repo)
+
+
+RULES = [rule_inverse, rule_sites, rule_keys, rule_saved, rule_names, rule_flush, rule_func_meta_cache]
 
 
 # ---------------------------------------------------------------------------
@@ -2711,6 +2960,38 @@ MUTANTS = [
           # uncollect variables
           top._uncollect_vars( x )
 """, 'R-C15-sites'),
+    # --- round 4 repairs (fix_r4_*), re-introduced; anchored on the repaired text (stale on a tree without the repair)
+    _m('R4a-spawned-subsignals-not-collected', COMP, """    top._dsl.all_signals       |= spawned_signals
+    top._dsl.all_named_objects |= spawned_signals
+""", "", 'R-C15-sites'),
+    _m('R4a-spawned-subsignals-only-in-named-objects', COMP, "    top._dsl.all_signals       |= spawned_signals\n", "", 'R-C15-sites'),
+    _m('R4b-double-buffer-flag-not-restored', COMP, """      if blk in parent._dsl.update_ff:
+        written._dsl.needs_double_buffer = True
+""", "", 'R-C15-saved'),
+    _m('R4c-interface-calls-not-saved', COMP, """          if x in removed_connectables or x in removed_interfaces:
+            to_save.add( x )
+            saved_upblk_calls.append( (blk, repr(x)) )""", """          if x in removed_connectables:
+            to_save.add( x )
+            saved_upblk_calls.append( (blk, repr(x)) )""", 'R-C15-saved'),
+    _m('R4d-reads-patched-for-the-parent-only', COMP, "      for blk, reads in top._dsl.all_upblk_reads.items():",
+       "      for blk, reads in parent._dsl.upblk_reads.items():", 'R-C15-saved'),
+    _m('R4d-calls-restored-into-parent-table', COMP, "      top._dsl.all_upblk_calls[blk].add( eval(obj_name) )",
+       "      parent._dsl.upblk_calls[blk].add( eval(obj_name) )", 'R-C15-saved'),
+    _m('R4e-method-port-pairs-stay-in-connect-order', COMP, "if x not in removed_connectables and y not in removed_connectables:",
+       "if x not in removed_signals and y not in removed_signals:", 'R-C15-sites'),
+    _m('R4e-connect-order-or', COMP, "if x not in removed_connectables and y not in removed_connectables:",
+       "if x not in removed_connectables or y not in removed_connectables:", 'R-C15-sites'),
+    _m('R4f-loopback-connections-dropped', COMP, """            elif other in parent._dsl.adjacency:
+              # A connection between two removed ports made at the parent
+              # (other is still a key: this pair has not been saved yet)
+              saved_connections.append( ("top"+repr(other)[1:], "top"+repr(x)[1:]) )
+""", "", 'R-C15-keys'),
+    _m('R4f-loopback-first-end-not-evaluated', COMP, "connection_pairs.append( eval(x) if isinstance( x, str ) else x )",
+       "connection_pairs.append( x )", 'R-C15-saved'),
+    _m('R4b-writes-restored-into-reads', COMP, "      parent._dsl.upblk_writes[blk].add( written )", "      parent._dsl.upblk_reads[blk].add( written )",
+       'R-C15-saved'),
+    _m('R4d-purge-rebinds-instead-of-in-place', COMP, "        top._dsl.all_upblk_calls[blk] -= to_save\n",
+       "        top._dsl.all_upblk_calls[blk] = top._dsl.all_upblk_calls[blk] - to_save\n", 'R-C15-saved'),
     # --- pairing of collect / uncollect
     _m('l1-uu-constraints-not-removed', L1, "      s._dsl.all_U_U_constraints -= m._dsl.U_U_constraints", "      pass", 'R-C15-inverse'),
     _m('l4-once-subtracts-wrong-set', L4, "s._dsl.all_update_once   -= m._dsl.update_once",
@@ -3052,9 +3333,10 @@ EQUIV = [
           del top._dsl.all_adjacency[y]
 """, """        top._dsl.all_adjacency.pop( y, None )
 """),
-    _m('F3-interfaces-in-one-collect-call', COMP, """      removed_interfaces = foo._collect_all_single( lambda x: isinstance( x, Interface ) )
+    _m('F3-interfaces-collected-with-renamed-lambda-and-difference-update', COMP, """      removed_interfaces = foo._collect_all_single( lambda x: isinstance( x, Interface ) )
       top._dsl.all_named_objects -= removed_interfaces
-""", """      top._dsl.all_named_objects -= foo._collect_all_single( lambda ifc: isinstance( ifc, Interface ) )
+""", """      removed_interfaces = foo._collect_all_single( lambda ifc: isinstance( ifc, Interface ) )
+      top._dsl.all_named_objects.difference_update( removed_interfaces )
 """),
     _m('connect-order-as-comprehension', COMP, """      new_connect_order = []
       for (x, y) in parent._dsl.connect_order:
@@ -3199,6 +3481,33 @@ EQUIV = [
     s._dsl.adjacency[o2].add( o1 )
     s._dsl.connect_order.append( (o1, o2) )
 """),
+    _m('R4-connect-order-comprehension', COMP, """      new_connect_order = []
+      for (x, y) in parent._dsl.connect_order:
+        if x not in removed_connectables and y not in removed_connectables:
+          new_connect_order.append( (x, y) )
+""", """      new_connect_order = [ pr for pr in parent._dsl.connect_order
+                            if not ( pr[0] in removed_connectables or pr[1] in removed_connectables ) ]
+"""),
+    _m('R4-reads-list-as-comprehension-with-separate-purge', COMP, """      for blk, reads in top._dsl.all_upblk_reads.items():
+        to_save = set()
+        for x in reads:
+          if x in removed_connectables:
+            to_save.add( x )
+            saved_upblk_reads.append( (blk, repr(x)) )
+        top._dsl.all_upblk_reads[blk] -= to_save
+""", """      saved_upblk_reads = [ (blk, repr(sig)) for blk, reads in top._dsl.all_upblk_reads.items()
+                                             for sig in reads if sig in removed_connectables ]
+      for blk in top._dsl.all_upblk_reads:
+        top._dsl.all_upblk_reads[blk] -= removed_connectables
+"""),
+    _m('R4-calls-filter-hoisted-union', COMP, """          if x in removed_connectables or x in removed_interfaces:
+            to_save.add( x )
+            saved_func_calls.append( (func, repr(x)) )""", """          if x in ( removed_connectables | removed_interfaces ):
+            to_save.add( x )
+            saved_func_calls.append( (func, repr(x)) )"""),
+    _m('R4-spawned-signals-recollected-without-difference', COMP,
+       "spawned_signals = obj._collect_all_single( lambda x: isinstance( x, Signal ) ) - added_signals",
+       "spawned_signals = obj._collect_all_single( lambda sig: isinstance( sig, Signal ) )"),
     _m('add-sets-via-update', COMP, "    top._dsl.all_signals       |= added_signals", "    top._dsl.all_signals.update( added_signals )"),
 ]
 
